@@ -189,6 +189,11 @@ def run_case(case):
                 k1 = 'x'
             T = P * rr.choice([3.0, 7.5, 20.0]) * rr.choice([1, 1, -1])
             dt = P / rr.choice([20.1, 41.3])
+            # WHFast's deferred synchronisation must not change the variational particles either (to rounding): a third of the WHFast
+            # cases run with safe_mode=0, half of those with keep_unsynchronized=1 (every output is then a synchronise-and-restore)
+            wh_mode = rr.choice(['safe', 'safe', 'unsafe', 'unsafe-keep']) if integ == 'whfast' else 'safe'
+            if wh_mode != 'safe':
+                counters['evolution_whfast_' + wh_mode] = counters.get('evolution_whfast_' + wh_mode, 0) + 1
 
             def build(delta1=0.0, delta2=0.0, with_var=False):
                 sim = rebound.Simulation()
@@ -219,6 +224,9 @@ def run_case(case):
                     if k2:
                         setattr(p, k2, getattr(p, k2) + delta2)
                 sim.integrator = integ
+                if wh_mode != 'safe':
+                    sim.ri_whfast.safe_mode = 0
+                    sim.ri_whfast.keep_unsynchronized = int(wh_mode == 'unsafe-keep')
                 if integ == 'ias15':
                     sim.ri_ias15.epsilon = 1e-9
                 elif integ == 'bs':
